@@ -171,6 +171,48 @@ def name_mode_probe(ctx):
 def run(ctx):
     machine.run_batch(ctx, ctx.n(60, 800), allow={'force', 'restart', 'fail'}, label='force', oracle=oracle, stamp=True)
     name_mode_probe(ctx)
+    unwritable_forced_probe(ctx)
+
+
+def unwritable_forced_probe(ctx):
+    """forcing a task makes its next request compute AND store the result again: when the new result cannot be written (publishing raises
+    OSError) the request fails — it does not succeed while the store keeps the result the force was meant to replace"""
+    import taskchain.data as tdata
+    from taskchain import Task, Config
+    root = ctx.tmpdir() / 'unwritable'
+    counter = [0]
+
+    class Count(Task):
+        class Meta:
+            name = 'count'
+
+        def run(self) -> dict:
+            counter[0] += 1
+            return {'n': counter[0]}
+    for k in range(ctx.n(2, 6)):
+        data = root / f'd{k}'
+        _ = Config(data, name='c', data={'tasks': [Count]}).chain().tasks['count'].value
+        chain = Config(data, name='c', data={'tasks': [Count]}).chain()
+        chain.force('count') if k % 2 else chain.tasks['count'].force()
+        orig_move = tdata.shutil.move
+
+        def move(src, dst, *a, **kw):
+            if str(data) in str(dst):
+                raise OSError(28, 'No space left on device')
+            return orig_move(src, dst, *a, **kw)
+        tdata.shutil.move = move
+        case = {'probe': 'forced task whose new result cannot be written', 'round': k}
+        ctx.case(case); ctx.count('unwritable-forced-probe')
+        try:
+            got, outcome = chain.tasks['count'].value, 'returned'
+        except OSError:
+            got, outcome = None, 'raised'
+        finally:
+            tdata.shutil.move = orig_move
+        stored = Config(data, name='c', data={'tasks': [Count]}).chain().tasks['count']
+        sv = stored.value if stored.has_data else None
+        if outcome == 'returned' and sv != got:
+            ctx.fail('a forced task was computed again but its stored result is still the old one (no error)', case, {'returned': got, 'stored': sv})
 
 
 def search(ctx, divergences):
